@@ -62,7 +62,10 @@ impl Scen {
     }
     fn cfg(&self) -> Cfg {
         Cfg { mode: self.mode, mix: if self.variant == 3 { Mix::AudioVideo } else if self.mode == Mode::WebRtc && !self.audio_only { Mix::DataAudio } else { Mix::Audio }, bundle: 0, mux_require: true,
-              ice: match self.variant { 1 => IceOpt::Tcp, 2 => IceOpt::UdpMux, _ => IceOpt::Full }, latching: false, legacy: self.variant == 3, p_offers: true }
+              ice: match self.variant { 1 => IceOpt::Tcp, 2 => IceOpt::UdpMux, _ => IceOpt::Full }, latching: false, legacy: self.variant == 3,
+              // the subject is always endpoint P (whose tasks run on the measured runtime): it offers, except in the
+              // remote-offer phase where the subject is the answerer
+              p_offers: self.phase != Phase::RemoteOfferSet }
     }
     /// which events make sense where (written rule): peer-side DTLS/SCTP events need an established
     /// WebRTC connection; ICE stop needs negotiation to have started; watcher-injected phases take only
@@ -765,11 +768,21 @@ pub fn run(args: &Args) {
             // ICE variants and per-section transports (audit C4)
             mk(Mode::WebRtc, ChannelsOpen, Close, false, 1), mk(Mode::WebRtc, ChannelsOpen, Close, false, 2), mk(Mode::Rtp, Connected, Close, false, 3),
             // close() right after creation, before the connection's task has run (round 3: gathering loop)
-            mk(Mode::WebRtc, Created, Close, false, 0)];
+            mk(Mode::WebRtc, Created, Close, false, 0),
+            // non-BUNDLE connections with two media sections (LegacySip, audio + video): every section after the
+            // first has its own ICE transport / UDP socket, in Rtp mode also its own RTP transport, in SDES-SRTP
+            // mode not (seed C17-c) — from the moment the offer is made
+            mk(Mode::Srtp, OfferMade, Close, false, 3), mk(Mode::Srtp, Connected, Close, false, 3), mk(Mode::Srtp, Connected, Drop, false, 3),
+            mk(Mode::Rtp, OfferMade, Close, false, 3), mk(Mode::Rtp, Connected, Drop, false, 3),
+            // … and the answerer closed right after the offer was applied: close() races the transport start
+            // (Rtp) / ends the SDES description wait, which then runs a start on the closed connection
+            mk(Mode::Rtp, RemoteOfferSet, Close, false, 3), mk(Mode::Srtp, RemoteOfferSet, Close, false, 3)];
         if args.tier_thorough { l.extend([mk(Mode::WebRtc, Created, Drop, false, 0), mk(Mode::WebRtc, DtlsHandshaking, Drop, false, 0),
             mk(Mode::WebRtc, ChannelsOpen, CloseTwice, false, 0), mk(Mode::Srtp, Connected, Close, false, 0), mk(Mode::Srtp, Connected, Drop, false, 0),
             mk(Mode::WebRtc, MediaFlowing, Close, false, 0), mk(Mode::WebRtc, Renegotiating, Close, false, 0), mk(Mode::WebRtc, Connected, Close, true, 0),
-            mk(Mode::WebRtc, ChannelsOpen, Drop, false, 2), mk(Mode::Rtp, Connected, Drop, false, 3), mk(Mode::Srtp, Connected, Close, false, 3)]); }
+            mk(Mode::WebRtc, ChannelsOpen, Drop, false, 2),
+            mk(Mode::Srtp, MediaFlowing, Close, false, 3), mk(Mode::Rtp, MediaFlowing, Close, false, 3), mk(Mode::Srtp, RemoteOfferSet, Drop, false, 3), mk(Mode::Rtp, RemoteOfferSet, Drop, false, 3),
+            mk(Mode::Srtp, OfferMade, Drop, false, 3), mk(Mode::Rtp, OfferMade, Drop, false, 3), mk(Mode::Srtp, MediaFlowing, Drop, false, 3)]); }
         // lower-layer ends (no close() by the application): the property owes the release here too (audit r2-C2);
         // judged exactly like the application-initiated ends
         l.push(mk(Mode::WebRtc, ChannelsOpen, PeerAbort, false, 0)); l.push(mk(Mode::WebRtc, ChannelsOpen, PeerCloseNotify, false, 0));
